@@ -54,7 +54,7 @@ func main() {
 	total := chain.RunStats{Tags: map[string]int{}}
 	for _, name := range []string{"v1only", "mixed", "v2only", "foundation"} {
 		cfg := chain.BaseConfig(chain.Shapes()[name])
-		cfg.Defects = []string{"unbalanced", "zero", "formation", "payout"}
+		cfg.Defects = []string{"unbalanced", "zero", "formation", "payout", "wrap"}
 		cfg.MaxReverts = 1
 		st := chain.Run(c, cfg, chain.RunOpts{Num: c.Pick(140, 3500), Depth: 56, Timeout: 20 * time.Minute})
 		total.Behaviours += st.Behaviours
@@ -93,7 +93,9 @@ func main() {
 	c.Cov("transactions_by_template", total.Tags)
 	c.Traces(int64(total.Behaviours))
 	c.Count(int64(total.Steps), int64(total.Behaviours))
-	for _, need := range []string{"v1:pay", "v2:pay", "v1:sf", "v2:sf", "v1:form1", "v2:form2", "v2:attest", "v1:fnd", "v2:fnd"} {
+	for _, need := range []string{"v1:pay", "v2:pay", "v1:sf", "v2:sf", "v1:form1", "v2:form2", "v2:attest", "v1:fnd", "v2:fnd",
+		"v1:sf!sfwrap", "v2:sf!sfwrap", "v2:pay!scwrap", "v1:pay!scwrap",
+		"block!payout+1", "block!payout-1", "block!payout-nov1fees", "block!payout-nov2fees"} {
 		if need == "v1:fnd" {
 			continue // rare in the quick tier; counted in evidence
 		}
